@@ -137,6 +137,8 @@ def cases(rng, tier):
     for _ in range(max(2, n // 4)):
         out.append({"t": "client", "seed": rng.getrandbits(40), "n": rng.randint(10, 30)})
     out.append({"t": "rph", "seed": rng.getrandbits(40), "n": rng.randint(2, 5)})
+    for _ in range({"quick": 2, "thorough": 20, "search": 10}[tier]):
+        out.append({"t": "regreq", "seed": rng.getrandbits(40), "n": rng.randint(6, 12)})
     # one long-lived relying party against one long-lived provider: whole flows (all response types / modes / request transports, PKCE)
     for _ in range(max(2, n // 4)):
         out.append({"t": "tandem", "seed": rng.getrandbits(40), "n": rng.randint(6, 14), "am": rng.choice(["client_secret_basic", "private_key_jwt", "client_secret_jwt"])})
@@ -238,7 +240,55 @@ def impl_rph(c):
     return {"nops": max(8, c["n"]), "changes": changes, "aliases": [], "probe_equal": ok, "probe_diff": [] if ok else ["an earlier client's issuer changed"], "hist": []}
 
 
+_REG_KJ = None
+
+
+def impl_regreq(c):
+    """relying parties with different response types in one process build their dynamic-registration requests: no module-level table
+    moves, and what an RP asks for does not depend on who asked before"""
+    global _REG_KJ
+    from cryptojwt.key_jar import init_key_jar
+    from idpyoidc.client.entity import Entity
+    from idpyoidc.client.defaults import DEFAULT_OIDC_SERVICES
+    from idpyoidc.message.oidc import RegistrationRequest
+    rng = random.Random(c["seed"])
+    if _REG_KJ is None:
+        _REG_KJ = init_key_jar(key_defs=[{"type": "EC", "crv": "P-256", "use": ["sig"]}], issuer_id="")
+    ISSUER = "https://op.example.org"
+
+    def request(name, rts):
+        conf = {"issuer": ISSUER, "base_url": f"https://{name}.example.com/rp", "redirect_uris": [f"https://{name}.example.com/rp/authz_cb"],
+                "preference": {"response_types_supported": list(rts)}}
+        rp = Entity(keyjar=_REG_KJ.copy(), config=conf, services=DEFAULT_OIDC_SERVICES, client_type="oidc")
+        ctx = rp.get_context()
+        ctx.issuer = ISSUER
+        ctx.map_supported_to_preferred()
+        ctx.provider_info = {"issuer": ISSUER, "registration_endpoint": f"{ISSUER}/registration"}
+        info = rp.get_service("registration").get_request_parameters()
+        req = RegistrationRequest().from_json(info["body"]).to_dict()
+        return {k: (sorted(v) if k == "grant_types" else v) for k, v in req.items() if k in ("response_types", "grant_types")}
+    base = {p: heapsnap.canon(v) for p, v in heapsnap.module_constants()}
+    changes, firsts, diff = [], {}, []
+    RTS = [["code"], ["id_token"], ["code", "id_token"], ["code", "code id_token"], ["id_token", "code"], ["code id_token", "code"], ["code", "id_token", "code id_token"]]
+    for i in range(c["n"]):
+        STATS["requests"] += 1
+        rts = RTS[0] if i == 0 else rng.choice(RTS)
+        got = request(f"rp{i}", rts)
+        key = json.dumps(rts)
+        if key in firsts and firsts[key] != got:
+            diff.append(f"registration request for response types {rts}: {firsts[key]} the first time, {got} later")
+        firsts.setdefault(key, got)
+        now = {p: heapsnap.canon(v) for p, v in heapsnap.module_constants()}
+        for p in now:
+            if now[p] != base.get(p) and not any(ch["root"] == p for ch in changes):
+                changes.append({"step": i, "op": "registration_request", "root": p, "before": json.dumps(base.get(p))[:300], "after": json.dumps(now[p])[:300]})
+    # the same question to a FRESH process-like reference is not available in-process; the first answer per configuration is the reference
+    return {"nops": max(8, c["n"]), "changes": changes, "aliases": [], "probe_equal": not diff, "probe_diff": diff, "hist": []}
+
+
 def impl(c):
+    if c["t"] == "regreq":
+        return impl_regreq(c)
     if c["t"] == "rph":
         return impl_rph(c)
     if c["t"] == "client":
@@ -386,7 +436,7 @@ def impl_client(c):
 
 
 def model_lines(c, obs):
-    if c["t"] in ("client", "tandem", "rph"):
+    if c["t"] in ("client", "tandem", "rph", "regreq"):
         return ["heap\tsettings"]
     cfg = CFGV[c["v"]]
     return ["\t".join(["heap", "usage", "1" if cfg["c1_rules"] else "0", "1" if cfg["c1_rules"] else "0"]), "heap\tsettings"]
